@@ -57,73 +57,91 @@ def typeErrOther (typ fmt : String) (schType : String) (strOrSlice : Bool) : Boo
   else if !(typ == "number" || typ == "integer") && fmt != "" && strOrSlice then false
   else !(typ == schType)
 
-/-- fuel-indexed: items nest at most as deep as the schema -/
+/-- nesting depth of `items` -/
+def SSchema.depth : SSchema → Nat
+  | .mk _ _ _ none => 0
+  | .mk _ _ _ (some it) => it.depth + 1
+
+def typOf (b : SBase) : String := match b.types with | t :: _ => t | [] => ""
+
+def hasDefault : Option JVal → Bool
+  | some .null => false | some (.str "") => false | some _ => true | none => false
+
+/-- slot 0: type. `Applies(i.root, kind)`: the root is the parameter/header also for items, so the type validator
+    applies whenever this level declares a type or a format -/
+def typeBad (O : Oracles) (b : SBase) (v : GoVal) : Bool :=
+  (typOf b != "" || b.format != "") &&
+  (match numKindOf v with
+   | some (k, x) => typeErrTyped O [typOf b] b.format k x
+   | none =>
+     match v with
+     | .bool _ => typeErrOther (typOf b) b.format "boolean" false
+     | .str _ | .named _ _ => typeErrOther (typOf b) b.format "string" true
+     | .slice .. => typeErrOther (typOf b) b.format "array" true
+     | .map .. => typeErrOther (typOf b) b.format "object" false
+     | _ => false)
+
+/-- slot 1: string -/
+def strBad (O : Oracles) (b : SBase) (required allowEmpty : Bool) : GoVal → Bool
+  | .str s =>
+    (required && !allowEmpty && !hasDefault b.default && s.isEmpty)
+    || gtOpt (runeCount s) b.maxLength || ltOpt (runeCount s) b.minLength
+    || (b.pattern != "" && O.re b.pattern (strOf s) != some true)
+  | _ => false
+
+/-- slot 2: format (Applies looks at the *root's* format) -/
+def fmtBad (O : Oracles) (rootFmt : String) (b : SBase) : GoVal → Bool
+  | .str s => O.fmtKnown rootFmt && !(O.fmtKnown b.format && O.fmt b.format (strOf s))
+  | _ => false
+
+/-- slot 3: number -/
+def numBad (O : Oracles) (b : SBase) (v : GoVal) : Bool :=
+  match numKindOf v with
+  | some (k, x) => numberErrTyped O b (typOf b) b.format k x
+  | none => false
+
+/-- slot 4, the slice's own constraints -/
+def sliceLocalBad (b : SBase) : GoVal → Bool
+  | .slice _ _ xs => ltOpt xs.length b.minItems || gtOpt xs.length b.maxItems || (b.uniqueItems && hasDeepDup xs)
+  | _ => false
+
+/-- slot 4, one element: (some element invalid so far, panicked); nothing more happens after the first invalid element -/
+def itemsStep (f : GoVal → Bool × Bool) (nilElemPanics : Bool) (acc : Bool × Bool) (x : GoVal) : Bool × Bool :=
+  if acc.1 || acc.2 then acc
+  else match x with
+    | .nil => if nilElemPanics then (false, true) else acc   -- before the `fix:` commit: reflect.TypeOf(nil).Kind()
+    | _ => ((!(f x).1), (f x).2)
+
+def itemsFold (f : GoVal → Bool × Bool) (nilElemPanics : Bool) (xs : List GoVal) : Bool × Bool :=
+  xs.foldl (itemsStep f nilElemPanics) (false, false)
+
+/-- slot 4, the elements of a slice under `items` -/
+def itemsRes (f : SSchema → GoVal → Bool × Bool) (nilElemPanics : Bool) (items : Option SSchema) : GoVal → Bool × Bool
+  | .slice _ _ xs => (match items with
+                      | some it => itemsFold (f it) nilElemPanics xs
+                      | none => (false, false))
+  | _ => (false, false)
+
+/-- fuel-indexed (`validate` gives it the depth of the schema): returns (valid, panicked) -/
 def validateAux (O : Oracles) (nilElemPanics : Bool) : Nat → Root → (rootFmt : String) → SSchema → GoVal → Bool × Bool
-  -- returns (valid, panicked)
   | 0, _, _, _, _ => (true, false)
-  | fuel + 1, root, rootFmt, .mk b required allowEmpty items, v =>
-    let typ := match b.types with | t :: _ => t | [] => ""
-    -- `Applies(i.root, kind)`: the root is the parameter/header also for items, so the type validator
-    -- applies whenever this level declares a type or a format
-    let typeApplies := typ != "" || b.format != ""
-    -- slot 0: type
-    let typeBad : Bool :=
-      typeApplies &&
-      (match numKindOf v with
-       | some (k, x) => typeErrTyped O [typ] b.format k x
-       | none =>
-         match v with
-         | .bool _ => typeErrOther typ b.format "boolean" false
-         | .str _ | .named _ _ => typeErrOther typ b.format "string" true
-         | .slice .. => typeErrOther typ b.format "array" true
-         | .map .. => typeErrOther typ b.format "object" false
-         | _ => false)
-    if typeBad then (false, false) else
-    -- slot 1: string
-    let strBad : Bool := match v with
-      | .str s =>
-        (required && !allowEmpty && !hasDefault b.default && s.isEmpty)
-        || gtOpt (runeCount s) b.maxLength || ltOpt (runeCount s) b.minLength
-        || (b.pattern != "" && O.re b.pattern (strOf s) != some true)
-      | _ => false
-    if strBad then (false, false) else
-    -- slot 2: format (Applies looks at the *root's* format)
-    let fmtBad : Bool := match v with
-      | .str s => O.fmtKnown rootFmt && !(O.fmtKnown b.format && O.fmt b.format (strOf s))
-      | _ => false
-    if fmtBad then (false, false) else
-    -- slot 3: number
-    let numBad : Bool := match numKindOf v with
-      | some (k, x) => numberErrTyped O b typ b.format k x
-      | none => false
-    if numBad then (false, false) else
-    -- slot 4: slice
-    let (sliceBad, panicked) : Bool × Bool := match v with
-      | .slice _ _ xs =>
-        if ltOpt xs.length b.minItems || gtOpt xs.length b.maxItems then (true, false)
-        else if b.uniqueItems && hasDeepDup xs then (true, false)
-        else match items with
-          | none => (false, false)
-          | some it =>
-            xs.foldl (fun (acc : Bool × Bool) x =>
-              if acc.1 || acc.2 then acc
-              else match x with
-                | .nil => if nilElemPanics then (false, true) else acc   -- before the `fix:` commit: reflect.TypeOf(nil).Kind()
-                | _ => let r := validateAux O nilElemPanics fuel .items rootFmt it x
-                       (!r.1, r.2)) (false, false)
-      | _ => (false, false)
-    if panicked then (false, true) else
-    if sliceBad then (false, false) else
+  | fuel + 1, _, rootFmt, .mk b required allowEmpty items, v =>
+    if typeBad O b v then (false, false) else
+    if strBad O b required allowEmpty v then (false, false) else
+    if fmtBad O rootFmt b v then (false, false) else
+    if numBad O b v then (false, false) else
+    if sliceLocalBad b v then (false, false) else
+    let r : Bool × Bool := itemsRes (validateAux O nilElemPanics fuel .items rootFmt) nilElemPanics items v
+    if r.2 then (false, true) else
+    if r.1 then (false, false) else
     -- slot 5: enum
     (!commonErr b.enum v, false)
-  where hasDefault : Option JVal → Bool
-    | some .null => false | some (.str "") => false | some _ => true | none => false
 
 /-- `nilElemPanics = true` is the pinned snapshot (a nil element of a slice with items panicked) -/
 def validate (O : Oracles) (root : Root) (s : SSchema) (v : GoVal) (nilElemPanics : Bool := false) : Bool × Bool :=
   match v with
   | .nil => (true, false)     -- a nil value is not validated
-  | _ => validateAux O nilElemPanics 8 root s.base.format s v
+  | _ => validateAux O nilElemPanics (s.depth + 1) root s.base.format s v
 
 /-! specification: declared type and every declared constraint at every nesting level -/
 def specType (typ : String) (v : GoVal) : Bool :=
@@ -170,6 +188,6 @@ def specAux (O : Oracles) : Nat → SSchema → GoVal → Bool
 def specValid (O : Oracles) (s : SSchema) (v : GoVal) : Bool :=
   match v with
   | .nil => true
-  | _ => specAux O 8 s v
+  | _ => specAux O (s.depth + 1) s v
 
 end VM.Simple
